@@ -67,7 +67,7 @@ def _raises_list(r):
 
 class Contract:
     def __init__(self, key, prop, types=None, returns=None, requires=(), ensures=(), ensures_exc=(),
-                 raises=None, modifies=(), effects=(), loops=None, locals=None, inline=False, funcs=None,
+                 raises=None, modifies=None, effects=(), loops=None, locals=None, inline=False, funcs=None,
                  ghost=None, mode="prove", unroll=None, comps=None, name=None, setup=(), max_paths=None,
                  frame=None, lock=None, replay=None, timeout_ms=None, axioms=(), post_setup=(), pure_result=None, asserts=None, nonlinear=False, unreachable_ok=(),
                  fs_inv=(), fs_policy=(), fs_opts=None, call_pre=None, witnesses=None):
@@ -80,7 +80,10 @@ class Contract:
         self.ensures = _pairs(ensures, self.short)
         self.ensures_exc = _pairs(ensures_exc)
         self.raises = raises
-        self.modifies = list(modifies)
+        # modifies=None: frame not declared (legacy: callers havoc nothing and the use is listed as an assumption);
+        # a declared list (possibly empty) is *verified* against the body by Verifier.check_frame
+        self.modifies_declared = modifies is not None
+        self.modifies = list(modifies or [])
         self.effects = list(effects)
         self.loops = dict(loops or {})
         self.locals = dict(locals or {})
@@ -977,6 +980,8 @@ class Verifier:
             except PyRaise as pr:
                 exc = pr.exc
             self.exits += 1
+            if exc is None or (c.raises is not None and any(exc_is_sub(exc.cls, cls) for cls, _ in c.raises_list())):
+                self.check_frame(c, I, path, inputs, node)
             if exc is not None:
                 self.check_exceptional_exit(c, I, path, env, exc)
             else:
@@ -996,6 +1001,65 @@ class Verifier:
             return
         except (BreakSig, ContinueSig):
             self.errors.append("break/continue outside loop")
+
+    def check_frame(self, c, I, path, inputs, node):
+        """soundness of `modifies`: a contract that callers use modularly (call_contract havocs exactly its
+        `modifies`) must not change any other heap location reachable from its parameters.  At every exit of the
+        verified body each such location is compared with its entry snapshot; a difference is the named obligation
+        `<fn>/frame:<path>` (unchanged terms are skipped without a solver query)."""
+        if self.contracts.get(c.key) is not c or c.inline or node.name == "__init__" or not c.modifies_declared:
+            return
+        cov = []
+        for m in c.modifies:
+            try:
+                cov.append(ast.unparse(ast.parse(m.strip(), mode="eval").body))
+            except SyntaxError:
+                cov.append(m)
+
+        def covered(p):
+            return any(p == m or p.startswith(m + ".") or p.startswith(m + "[") for m in cov)
+
+        def same_terms(xs, ys):
+            return all(x is y or (x is not None and y is not None and x.eq(y)) for x, y in zip(xs, ys))
+
+        seen = set()
+
+        def walk(cur, old, p):
+            if covered(p) or cur is None or old is None or id(cur) in seen:
+                return
+            if isinstance(cur, (VObj, VDictRec)):
+                seen.add(id(cur))
+                if type(old) is not type(cur):
+                    path.prove(z3.BoolVal(False), "%s/frame:%s" % (c.short, p), "frame", where="modifies " + ", ".join(cov))
+                    return
+                keys = list(cur.fields)
+                if isinstance(cur, VDictRec) and set(keys) != set(old.fields):
+                    path.prove(z3.BoolVal(False), "%s/frame:%s" % (c.short, p), "frame", where="keys of %s changed" % p)
+                for f in keys:
+                    sub = ("%s.%s" % (p, f)) if isinstance(cur, VObj) else ("%s[%r]" % (p, f))
+                    walk(cur.fields[f], old.fields.get(f), sub)
+                return
+            if isinstance(cur, (VFunc, VClass, VModule, VOpaque, VOptObj)):
+                return
+            try:
+                if isinstance(cur, VSeq) and isinstance(old, VSeq) and same_terms([cur.arr, cur.n], [old.arr, old.n]):
+                    return
+                if isinstance(cur, VMap) and isinstance(old, VMap) and same_terms([cur.dom, cur.val, cur.card], [old.dom, old.val, old.card]) \
+                        and (cur.order is None or same_terms([cur.order.arr], [old.order.arr])):
+                    return
+                if isinstance(cur, VSet) and isinstance(old, VSet) and same_terms([cur.dom, cur.card], [old.dom, old.card]):
+                    return
+                phi = I.eq(cur, old)
+                if isinstance(cur, VMap) and cur.order is not None and isinstance(old, VMap) and old.order is not None:
+                    phi = z3.And(phi, I.eq(VSeq(cur.order.arr, cur.order.n, cur.kt, "list"),
+                                           VSeq(old.order.arr, old.order.n, old.kt, "list")))
+            except Unsupported:
+                return
+            path.prove(phi, "%s/frame:%s" % (c.short, p), "frame", where="not in modifies [%s]" % ", ".join(cov))
+
+        for pname, v in inputs.items():
+            if isinstance(v, (VObj, VDictRec, VSeq, VMap, VSet)):
+                walk(v, I.old_env.lookup(pname), pname)
 
     def check_exceptional_exit(self, c, I, path, env, exc):
         if c.raises is None:
